@@ -294,6 +294,21 @@ def _makespan_shape(ctx, mk):
         raise AnalysisError(f"MakespanReward.update: reward `{ast.unparse(val)}` not recognised as a difference of old and new makespan")
 
 
+def _machine_lists(ctx, cls, fi, e) -> bool:
+    """e denotes the schedule's list of machine lists: `<...>.schedule.schedule`,
+    directly or through an attribute of the reward that is assigned exactly
+    that (whether such an alias survives a reset is R12.f's business)."""
+    t = ctx.norm.xtext(fi, e).replace(" ", "")
+    if t.endswith("schedule.schedule"):
+        return True
+    if isinstance(e, ast.Attribute) and isinstance(e.value, ast.Name) and e.value.id == "self":
+        from ..lifecycle import Lifecycle
+
+        srcs = [(f, v) for f, v in Lifecycle(ctx).attr_sources(cls, e.attr) if v is not None]
+        return bool(srcs) and all(ctx.norm.xtext(f, v).replace(" ", "").endswith("schedule.schedule") for f, v in srcs)
+    return False
+
+
 def _idle_shape(ctx, it):
     chk = ctx.chk
     upd = it.methods.get("update")
@@ -307,6 +322,27 @@ def _idle_shape(ctx, it):
     val = _strip_cast(ctx, upd, _expand(ctx, upd, app[0].args[0]), "R13.d", app[0])
     if val is None:
         return
+    # the previous operation is the one *in front of* the new one in the
+    # machine's list; searching the live list by time finds the new operation
+    # itself whenever its duration is zero (end == start)
+    for n in own_nodes(upd.node):
+        its = []
+        if isinstance(n, ast.For):
+            its = [(n.iter, [x for x in ast.walk(n) if isinstance(x, ast.If)])]
+        elif isinstance(n, (ast.GeneratorExp, ast.ListComp)):
+            its = [(g.iter, list(g.ifs)) for g in n.generators]
+        for itx, conds in its:
+            t = ctx.norm.xtext(upd, itx).replace(" ", "")
+            live = t.endswith(f"schedule.schedule[{sop}.machine_id]") or t.endswith(f"schedule.schedule[{sop}.machine_id])")
+            if live and any("end_time" in ctx.norm.xtext(upd, c.test if isinstance(c, ast.If) else c) for c in conds):
+                chk.violation(
+                    "R13.d", upd, n,
+                    "the previous operation is searched by time in the machine's live list, which already contains the "
+                    "operation just scheduled: a zero-duration operation (end == start) is found as its own predecessor "
+                    "and the idle gap in front of it is rewarded as 0",
+                    loc=upd.loc(n),
+                )
+                return
     if not (isinstance(val, ast.UnaryOp) and isinstance(val.op, ast.USub)):
         if isinstance(val, ast.Name) or (isinstance(val, ast.BinOp) and isinstance(val.op, ast.Sub)):
             # several definitions (if/else) - look at each
@@ -351,10 +387,10 @@ def _idle_shape(ctx, it):
                         inner = _expand(ctx, upd, base.value)
                         if up == "-1" and base.slice.lower is None and isinstance(inner, ast.Subscript):
                             mid = ast.unparse(_expand(ctx, upd, inner.slice))
-                            ok_prev = ast.unparse(inner.value).endswith("schedule.schedule")
+                            ok_prev = _machine_lists(ctx, it, upd, inner.value)
                     elif idx == "-2" and isinstance(base, ast.Subscript):
                         mid = ast.unparse(_expand(ctx, upd, base.slice))
-                        ok_prev = ast.unparse(base.value).endswith("schedule.schedule")
+                        ok_prev = _machine_lists(ctx, it, upd, base.value)
                     if ok_prev and mid != f"{sop}.machine_id":
                         ok = False
                         chk.violation("R13.d", upd, src, f"the previous operation is looked up on machine `{mid}`, not on the machine the operation was scheduled on", loc=upd.loc(app[0]))
